@@ -11,8 +11,10 @@ import (
 	"fmt"
 	"os"
 	"path/filepath"
+	"runtime"
 	"sort"
 	"strings"
+	"sync"
 	"time"
 
 	"verif/harness/internal/crashsim"
@@ -127,6 +129,55 @@ func runScenario(ctx *hx.Ctx, w *crashsim.World, scn *crashsim.Scenario, source 
 	for _, m := range seqMismatch {
 		report("write-sequence", m, -1, false)
 	}
+	// (iii) the log database, the node's second store: position and atomicity of its commit in the combined write sequence
+	// (model: dual_steps — after the state commit, before the index batch, only when the tables change), then the cut right
+	// there with the log database as it was before / after the commit
+	for _, p := range run.Logs.Problems {
+		report("log-commit-not-atomic", p, -1, true)
+	}
+	logImports := 0
+	for i, d := range run.Deliveries {
+		p := run.Logs.Commit[i]
+		if p < 0 {
+			continue
+		}
+		logImports++
+		k := d.From + p - run.U.Base
+		if pos := run.Pos(k); pos.Delivery != i || pos.Prev != "state" || pos.Next != "index" {
+			report("log-commit-position", fmt.Sprintf("delivery %d (block #%d): the log tables change at %s of delivery %d; the model (dual_steps, visible_best_block_is_logged) puts the log commit after the state commit and before the index batch",
+				i, d.Block.Header().Number(), pos.Class(), pos.Delivery), k, false)
+		}
+	}
+	logCuts := run.LogCuts()
+	type job struct {
+		k         int
+		committed bool
+	}
+	var jobs []job
+	for _, k := range logCuts {
+		jobs = append(jobs, job{k, false}, job{k, true})
+	}
+	logResults := make([]*crashsim.LogCutResult, len(jobs))
+	var wg sync.WaitGroup
+	sem := make(chan struct{}, runtime.NumCPU())
+	for i, j := range jobs {
+		wg.Add(1)
+		sem <- struct{}{}
+		go func(i int, j job) {
+			defer wg.Done()
+			defer func() { <-sem }()
+			logResults[i] = run.EvalLogCut(j.k, j.committed)
+		}(i, j)
+	}
+	wg.Wait()
+	for _, res := range logResults {
+		ctx.Cov.Count("logcut:" + res.Variant)
+		for _, f := range res.Findings {
+			report(f.Class, f.Summary, res.K, f.Found)
+		}
+	}
+	ctx.Cov.Add("imports-changing-the-log-tables", logImports)
+	ctx.Cov.Add("log-cuts-evaluated", len(jobs))
 	canon, _ := json.Marshal(scn)
 	nontrivial := stored >= 8 && storePoints >= 2 && (forks > 0 || withTx > 0)
 	ctx.Cov.Case(string(canon), nontrivial, map[string]any{"blocks": len(scn.Blocks), "deliveries": len(run.Deliveries), "stored": stored,
